@@ -157,11 +157,32 @@ fn slice_binary_search(s: &[TextSize], x: &TextSize) -> (r: Result<usize, usize>
         },
 { unimplemented!() }
 
-/// Column of a non-ASCII text: character counting over `str` is outside the Verus subset; this
-/// branch is abstracted (its value is not specified here) and covered by the bounded Kani twin.
+/// From the property statement: "not counting a leading BOM" - U+FEFF is EF BB BF in UTF-8.
+spec fn has_bom(b: Seq<u8>) -> bool {
+    b.len() >= 3 && b[0] == 0xEFu8 && b[1] == 0xBBu8 && b[2] == 0xBFu8
+}
+
+/// The number of characters of a piece of text, as core's `str::chars().count()` computes it from the
+/// bytes: left UNINTERPRETED (character decoding is outside the Verus subset), so that the only thing
+/// used about it is that it is a function of the bytes - plus the two facts assumed of the exec
+/// function below.  The Kani twins run the real counting on all short valid UTF-8 texts.
+uninterp spec fn chars_count(s: Seq<u8>) -> int;
+
+/// `s.chars().count()` of a `str` slice (trusted: at most one character per byte; exactly one per byte
+/// when every byte is ASCII).
 #[verifier::external_body]
-fn utf8_column(line_start: TextSize, offset: TextSize, content: &[u8]) -> (r: u32)
+fn str_chars_count(s: &[u8]) -> (r: usize)
+    ensures r as int == chars_count(s@), 0 <= chars_count(s@) <= s@.len(),
+        (forall|k: int| 0 <= k < s@.len() ==> (#[trigger] s@[k]) < 128u8) ==> chars_count(s@) == s@.len(),
 { unimplemented!() }
+
+/// The same two facts as an axiom about the spec function (trusted, see str_chars_count).
+#[verifier::external_body]
+proof fn axiom_chars_count(s: Seq<u8>)
+    ensures 0 <= chars_count(s) <= s.len(),
+        (forall|k: int| 0 <= k < s.len() ==> (#[trigger] s[k]) < 128u8) ==> chars_count(s) == s.len(),
+{
+}
 
 impl LineIndex {
 
@@ -279,24 +300,30 @@ spec fn view(&self) -> Seq<TextSize> { self.inner.line_starts@ }
             self@.len() < u32::MAX,
             offset.raw <= content@.len(),
             offset.raw < u32::MAX, // the 1-based column must fit u32 (OneIndexed saturates at u32::MAX)
+            !(has_bom(content@) && 0 < offset.raw < 3), // the offset is on a character boundary (not inside the BOM)
         ensures
             r.row.v >= 1 && is_row_of(self@, offset.raw as int, r.row.v - 1),
             // ASCII text: 1-based column = offset - line start + 1
             (self.inner.kind is Ascii) ==> r.column.v as int == offset.raw - self@[r.row.v - 1].raw + 1,
+            // any other text: 1 + the number of characters between the line start - after a leading BOM on
+            // the first line - and the offset
+            !(self.inner.kind is Ascii) ==> ({
+                let ls = self@[r.row.v - 1].raw as int;
+                let from = if ls == 0 && has_bom(content@) && offset.raw > 0 { 3int } else { ls };
+                r.column.v as int == 1 + chars_count(content@.subrange(from, offset.raw as int))
+            }),
 //@@ ENDSIG
 //@@ SUB 1 <<<u32::from(offset - line_start)>>> ==> <<<(offset.raw - line_start.raw)>>>
-//@@ SUB 1 <<<let mut line_start = self.line_starts()[row as usize];>>> ==> <<<let line_start = self.line_starts()[row as usize];>>>
-//@@ SUBBLOCK 1
-// Don't count the BOM character as a column.
-if line_start == TextSize::from(0) && content.starts_with('\u{feff}') {
-line_start = '\u{feff}'.text_len();
-}
-
-let range = TextRange::new(line_start, offset);
-content[range].chars().count().try_into().unwrap()
-//@@ WITH
-                    utf8_column(line_start, offset, content)
-//@@ ENDSUB
+//@@ SUBRE 1 <<<content\.starts_with\('\\u\{feff\}'\)>>> ==> <<<(content.len() >= 3 && content[0] == 0xEF && content[1] == 0xBB && content[2] == 0xBF)>>>
+//@@ SUBRE 0-1 <<<line_start == TextSize::from\(0\)>>> ==> <<<line_start.raw == 0>>>
+//@@ SUB 1 <<<line_start = '\u{feff}'.text_len();>>> ==> <<<line_start = TextSize::new(3);>>>
+//@@ BEFORE 1 <<<match self.binary_search_line(&offset) {>>>
+        proof {
+            // an offset that IS a line start has no character before it on its line
+            axiom_chars_count(content@.subrange(offset.raw as int, offset.raw as int));
+        }
+//@@ ENDBEFORE
+//@@ SUB 1 <<<content[range].chars().count().try_into().unwrap()>>> ==> <<<str_chars_count(&content[range.start.raw as usize..range.end.raw as usize]) as u32>>>
 //@@ END
 
 //@@ EXTRACT file=vendored/src/source_location/line_index.rs anchor=<<<pub(crate) fn line_start(&self, line: OneIndexed, contents: &str) -> TextSize {>>>
